@@ -7,7 +7,10 @@ import eng_decide
 def run(res, tier, seed, proof_broken, replay):
     run_c01(res, tier, seed, proof_broken, replay)
     # the engine's own decisions: Lean decision tables (Props/Engine.lean) tied to the real methods by differential execution
-    eng_decide.attach(res, tier, seed, proof_broken)
+    before = len(res.violations)
+    broken = list(proof_broken)
+    eng_decide.attach(res, tier, seed, broken)
+    finish_engine_check(res, tier, seed, broken, before)
 
 
 if __name__ == "__main__":
